@@ -2,18 +2,24 @@
 Correspondence: MomentumIntegral / AngularMomentumIntegral construct_array_contraction and the public
 momentum_integral / angular_momentum_integral vs the exact Coq model (commands 10-13; the model carries the real
 matrix R of the value -i R and assembles it Hermitian, as the property demands). Additionally every returned
-component is checked to be purely imaginary and antisymmetric (Hermitian) for every ordering of the shells."""
+component is checked to be purely imaginary and antisymmetric (Hermitian) for every ordering of the shells.
+Stream "hp": both construct_array_contraction routines (differential-operator and moment recursions, norm_prim_cart,
+contraction, the factor -1j) replayed in 260-bit arithmetic on object arrays (harness/hpnum.py) and compared with
+commands 10 / 12 at 1e-18 x sum|primitive terms|; the real part of the replay must vanish to the same tolerance."""
 import itertools
 import random
 
 import numpy as np
 
+import hpnum
 import twoindex
 from lib import XShell, call_impl, run_cases
 
 RULE = ("block level: (l_a, l_b) in 0..4 x 0..4 enumerated for both operators; basis level 1-4 shells, cart/sph/mixed, "
         "with/without transform, plus every ordering of 2-3 shells; tolerance 1e-8 of max(1, largest element); "
-        "Hermiticity: |M + M^T| (imaginary part) and |real part| below the same tolerance; distinct by input hash")
+        "Hermiticity: |M + M^T| (imaginary part) and |real part| below the same tolerance; distinct by input hash; "
+        "hp stream: per operator 5 (quick) / 50 (thorough) shell pairs l<=2 / l<=4, K,M<=2, replayed at 260 bits, "
+        "tolerance 1e-18 x sum|primitive terms|")
 RULE += " HISTORY stream (the returned value depends only on the arguments): basis-level shells carry the atom index (icenter; shells sharing a centre share it); every 2nd generated basis (quick; every 4th thorough; with a transform only bases of 1-2 shells) and every 5th same-centre pair is a GEOMETRY SCAN evaluated in one process: the same shells (exponents, coefficients, types, icenter) with the atoms displaced rigidly by k/16 bohr (one atom, or every atom by its own vector) at 1-2 further geometries, then the first geometry again; every call is compared with the exact model at its own geometry with the same tolerance (detail kind \"history\", the replay case contains the geometries; shrinking and replay evaluate every candidate sequence in a fresh process)"
 ASSUMPTIONS = ["rounding of the NumPy pipeline is not modelled: exactness is decided to 1e-8 on the generated inputs"]
 
@@ -45,6 +51,9 @@ def mk_kernel(op):
         scale = max(1.0, max((abs(float(x)) for x in arr.flat), default=1.0))
         return 1e-8 * scale, None
 
+    def hp_block(case, ha, hb):
+        return ib(case, ha, hb)
+
     def extra_check(case, impl, res, level):
         impl = np.asarray(impl)
         arr = np.array(res, dtype=object)
@@ -64,7 +73,8 @@ def mk_kernel(op):
     return dict(name=op,
                 block_cmd=lambda case, sa, sb: "(%d %s %s)" % (bc, sa.sx(), sb.sx()),
                 int_cmd=lambda case, basis, T: "(%d %s %s)" % (ic, twoindex.basis_sx(basis), twoindex.t_sx(T)),
-                impl_block=ib, impl_int=ii, post=lambda a: -np.asarray(a).imag, tol=tol, extra_check=extra_check)
+                impl_block=ib, impl_int=ii, post=lambda a: -np.asarray(a).imag, tol=tol, extra_check=extra_check,
+                hp_block=hp_block, hp_post=hpnum.minus_imag)
 
 
 EVALS = {op: twoindex.make_eval(mk_kernel(op)) for op in ("momentum", "angmom")}
@@ -80,6 +90,10 @@ def known(case, detail):
 
 def gen_cases(tier, seed):
     cases = []
+    for k, op in enumerate(("momentum", "angmom")):
+        for c in twoindex.hp_cases(tier, seed, salt=80 + k, n_quick=5, n_thorough=50):
+            c["op"] = op
+            cases.append(c)
     for k, op in enumerate(("momentum", "angmom")):
         cs = twoindex.gen_cases(tier, seed, salt=80 + k, lmax_block=4, lmax_basis=3,
                                 nb_quick=30, nb_thorough=200, block_reps_thorough=3)
